@@ -44,6 +44,9 @@ def arcovar_marple(x, order):
 
     #   ----------------------------------------------------- Initialization
     x = np.array(x)
+    if x.dtype.kind in 'iub':
+        # integer samples: the products below do not fit a narrow dtype
+        x = x.astype(float)
     N = len(x)
 
 
